@@ -197,7 +197,8 @@ def start_state_from_dask(dsk, cache=None, sortkey=None, keys=None):
             dependencies[key]
             for d in dependents[key]:
                 if d in waiting:
-                    waiting[d].remove(key)
+                    # ``key`` is absent from the set if ``cache`` already held it
+                    waiting[d].discard(key)
                     if not waiting[d]:
                         del waiting[d]
                         ready_set.add(d)
